@@ -425,6 +425,15 @@ def inScope : Op → Bool
   | .rename p q => (isUnder ["W"] p || isUnder ["W"] q)
   | op => op.paths.all (isUnder ["W"])
 
+/-- the operation does not reach into a directory that has left the watched tree but is still watched by
+    the kernel (a moved-out directory keeps its watches: known finding D2): the parent directory of every
+    path it names outside `W` is unwatched -/
+def quietOp (s_fs : FS) (k : Kern) (op : Op) : Bool :=
+  op.paths.all (fun q => isUnder ["W"] q ||
+    (match s_fs.find? (parentOf q) with
+     | some par => (k.wdOfIno par.ino).isNone
+     | none => true))
+
 /-- well-formed file system: unique paths, unique inodes below `nextIno`, the two top directories exist,
     every entry's parent is a directory -/
 def FS.WF (fs : FS) : Prop :=
@@ -442,14 +451,18 @@ def treeW1 (fs : FS) : Tree := (treeW fs).filter (fun x => x.1.length = 2)
 
 def eraseSub (t : Tree) (p : P) : Tree := t.filter (fun x => !(x.1 == p || isUnder p x.1))
 
-/-- apply one delivered event to a copy of the tree -/
+def setEntry (t : Tree) (p : P) (isDir : Bool) : Tree := t.filter (fun x => x.1 != p) ++ [(p, isDir)]
+
+/-- apply one delivered event to a copy of the tree (flat replay: a created / moved event places exactly
+    one entry; the synthetic events place the descendants; a deleted event and the source of a moved event
+    take the whole subtree away) -/
 def applyEv (t : Tree) (e : PEv) : Tree :=
   match e.cls.eventType with
-  | "created" => (eraseSub t e.src) ++ [(e.src, e.cls.isDirectory)]
+  | "created" => setEntry t e.src e.cls.isDirectory
   | "deleted" => eraseSub t e.src
   | "moved" =>
     let t1 := if e.src = [] then t else eraseSub t e.src
-    if e.dest = [] then t1 else (eraseSub t1 e.dest) ++ [(e.dest, e.cls.isDirectory)]
+    if e.dest = [] then t1 else setEntry t1 e.dest e.cls.isDirectory
   | _ => t
 
 def replay (t : Tree) (evs : List PEv) : Tree := evs.foldl applyEv t
